@@ -53,6 +53,17 @@ if backend is None:
             except Exception as e:
                 print("*** Error loading backend " + str(mod[1]) + ":", e)
 
+# zkifbellman and zkifbulletproofs both reconfigure their base module when they are imported: of
+# several derived modules imported before the runtime, the one imported last is the one in effect
+_paths = dict((md, nm) for (nm, md) in backends)
+_chosen = [md for md in _paths if sys.modules.get(md) is backend]
+if backend is not None and _chosen:
+    _base = [md for md in _paths if _chosen[0].startswith(md)][0]
+    _derived = [md for md in sys.modules if md in _paths and md.startswith(_base) and md != _base]
+    if _chosen[0] in _derived and _derived[-1] != _chosen[0]:
+        backend_name = _paths[_derived[-1]]
+        backend = sys.modules[_derived[-1]]
+
 """
 Operating principles:
  - if wrong type of value is given as argument, raise ValueError or
